@@ -736,7 +736,7 @@ Proof.
   { rewrite proj_fold; [exact E3|]. intros t b. destruct (top_rank A b); reflexivity. }
   rewrite Ee. apply bi_fold.
   - intros t eb Heb Bt. destruct (crashed t); [exact Bt|]. destruct (erank eb) as [|top rest] eqn:Er; [apply bi_set_crash; exact Bt|].
-    destruct (floordivv A _ _); [|apply bi_set_crash; exact Bt]. cbv zeta. apply bi_fold; [|exact Bt].
+    destruct (divv A _ _); [|apply bi_set_crash; exact Bt]. cbv zeta. apply bi_fold; [|exact Bt].
     intros u i Hi Bu. apply bi_add_vote; [|exact Bu]. apply (He eb Heb top i); [rewrite Er; left; reflexivity|exact Hi].
   - apply bi_fold; [|apply bi_init_kfs; exact B2].
     intros t b Hb' Bt. destruct (top_rank A b) as [c|] eqn:Et; [|exact Bt]. apply bi_add_vote; [|exact Bt].
